@@ -56,10 +56,10 @@ func init() {
 		ID:        "C17",
 		Technique: "exhaustive enumeration to a bound over the two real command-line programs: every (line count, node count) pair and every small batch-file shape; each printed range is executed by the real simulator and the executed line ids are compared with the partition specification",
 		Rule: "lk scenarios: all (L,K) with the real calcHermesBatch -list/-size, ranges parsed and judged (contiguous, disjoint, 1..L, count = size); for L,K <= ExecMax every range is additionally run through the real hermes2go -lines a-b on a batch of instantly failing lines, whose error summary names exactly the executed line ids; " +
-			"shape scenarios: all sequences of <= 6 lines over {blank, x, xy} x {LF, CRLF} x {final newline, none} x K in {1,2,3,7}; boundary scenarios: files longer than the calculator's 32 KiB read buffer with the buffer edge at every offset -3..+3 around a line end; " +
+			"shape scenarios: all sequences of <= 6 lines over {blank, short line, long line} x {LF, CRLF} x {final newline, none} x K in {1,2,3,7}; boundary scenarios: files longer than the calculator's 32 KiB read buffer with the buffer edge at every offset -3..+3 around a line end; " +
 			"case = (file, K); non-trivial = L>=2 and K>=2, or a file with blank lines/CRLF",
 		Assumptions: []string{"a non-empty batch line is what the simulator's reader keeps: split at LF, one trailing CR removed, length > 0", "files without any non-empty line are outside the quantifier (line counts 1..L)",
-			"the simulator reports executed lines by their 0-based index among the non-empty lines in its error summary; lines without project= fail before touching any file"},
+			"every generated line fails before touching any file with an error message that names the line (an invalid crop-override name L<k>), so the error summary shows which lines - by content, not by position - were executed"},
 		Bound: func(t string) string {
 			if t == "quick" {
 				return "L 1..60 x K 1..60 (ranges executed for L,K <= 12, concurrency 1 and 3); all 1092 shapes of <= 6 lines x 4 encodings x 4 node counts; 14 buffer-boundary files"
@@ -132,6 +132,19 @@ func c17Calc(bin, file string, k int) (size string, list string, err error) {
 
 var c17ErrLine = regexp.MustCompile(`(?m)^\[(\d+)\] Error:`)
 
+// every generated batch line fails before any file is touched with an error message that names the line:
+// "invalid crop parameter name: L<k>" (k = number of the line among the non-empty lines)
+var c17IdLine = regexp.MustCompile(`(?m)^\[(\d+)\] Error: (.*)$`)
+var c17IdMsg = regexp.MustCompile(`invalid crop parameter name: L(\d+)`)
+
+func c17Line(k int, long bool) string {
+	s := fmt.Sprintf("project=x plotNr=1 CropFile=f c_L%d=1", k)
+	if long {
+		s += " fcode=abcdefgh"
+	}
+	return s
+}
+
 // c17Exec runs the real simulator on one range and returns the 1-based ids of the executed lines.
 func c17Exec(bin, file string, r c17Range, conc int) ([]int, error) {
 	cmd := exec.Command(bin, "-module", "batch", "-batch", file, "-lines", fmt.Sprintf("%d-%d", r.a, r.b), "-concurrent", strconv.Itoa(conc))
@@ -157,9 +170,13 @@ func c17Exec(bin, file string, r c17Range, conc int) ([]int, error) {
 		return nil, fmt.Errorf("no error summary in output: %.300s", s)
 	}
 	var ids []int
-	for _, m := range c17ErrLine.FindAllStringSubmatch(s[i:], -1) {
-		v, _ := strconv.Atoi(m[1])
-		ids = append(ids, v+1)
+	for _, m := range c17IdLine.FindAllStringSubmatch(s[i:], -1) {
+		if id := c17IdMsg.FindStringSubmatch(m[2]); id != nil {
+			v, _ := strconv.Atoi(id[1])
+			ids = append(ids, v)
+		} else {
+			ids = append(ids, -1) // something that is not one of the batch lines was executed
+		}
 	}
 	return ids, nil
 }
@@ -244,7 +261,7 @@ func c17Run(raw json.RawMessage, c *mc.Ctx) {
 		for l := sp.LFrom; l <= sp.LTo; l++ {
 			var b strings.Builder
 			for i := 1; i <= l; i++ {
-				fmt.Fprintf(&b, "line%d\n", i)
+				b.WriteString(c17Line(i, i%3 == 0) + "\n")
 			}
 			os.WriteFile(file, []byte(b.String()), 0o644)
 			for k := 1; k <= sp.KMax; k++ {
@@ -266,8 +283,12 @@ func c17Run(raw json.RawMessage, c *mc.Ctx) {
 		for si := sp.ShapeFrom; si < sp.ShapeTo; si++ {
 			var b strings.Builder
 			blank := false
+			nth := 0
 			for i, s := range shapes[si] {
-				b.WriteString([]string{"", "x", "xy"}[s])
+				if s > 0 {
+					nth++
+					b.WriteString(c17Line(nth, s == 2))
+				}
 				blank = blank || s == 0
 				if i+1 < len(shapes[si]) || sp.FinalNL {
 					b.WriteString(eol)
